@@ -220,6 +220,7 @@ func genC06Strlen(r *plan.Rng) *plan.Plan {
 		{"g24 := str[0:R % 6]", "for i := 0; i < R + 2; i++ {", "	g24 += 'é'", "	g24 = g24 + char(1114112 + i)", "	g24 += char(-1 - i)", "}"},
 		{"g25 := \"abcdef\" + \"gh\"[0:R % 3]", "g25b := g25 + char(56000)", "g25c := g25 + 'z'", "g25d := g25 + '€'", "g25e := char(57343) + g25"},
 		{"g26 := \"0123456789abcdefghij\"", "g26b := {abcdefghijklmnopqrstuvwxyz: 1}", "g26c := `raw 0123456789abcdefghijklmnopqrstuvwxyz0123456789abcdefghijklmnopqrstuvwxyz`"},
+		{"g27 := string(time(n))", "g27b := format(\"%v\", time(n))", "g27c := \"t\" + time(n)", "g27d := string(error(time(n)))"},
 		{"g14 := string(n * 1000000) + string(fl) + string(true) + string(undefined)", "g14b := format(\"%t|%c|%U\", true, chr, chr)"},
 	}
 	n := r.Range(1, 3)
